@@ -278,6 +278,88 @@ fn shared_translator_batch(seed: u64, i: usize, base: &Val, acc: &mut Acc) {
     }
 }
 
+/// Calls that FAIL in between: 3-5 calls on one Translator, some of them on damaged input (cut short,
+/// a stray byte) or through a reader that starts failing, every source format, named or detected. What a
+/// call does - verdict and every byte it writes - must be what it does on a fresh Translator: nothing a
+/// failed call leaves behind (a buffer, a remembered format, a half-read document) may reach a later one.
+fn shared_translator_with_failures(seed: u64, i: usize, acc: &mut Acc) {
+    use crate::run::{run_history, Call};
+    let mut rng = Rng::derive(seed, 0xc01f, i as u64);
+    let to = fmts::STREAMING[i % 3];
+    let n = rng.range(3, 5);
+    let mut calls: Vec<Call> = vec![];
+    let mut kinds: Vec<&'static str> = vec![];
+    // one source format dominates a batch, so that consecutive calls often share it
+    let main_src = ALL[rng.below(4)];
+    for _ in 0..n {
+        let mut cl = Classes::default();
+        let mut doc = gen_doc(&mut rng, &GenOpts { max_depth: 3, max_width: 4, ..GenOpts::common() }, &mut cl);
+        let mut src = if rng.chance(2, 3) { main_src } else { ALL[rng.below(4)] };
+        if src == Fmt::Toml {
+            match tomlify(&doc) {
+                Some(d) => doc = d,
+                None => src = Fmt::Json,
+            }
+        }
+        let mut feats = Feats::default();
+        let mut bytes = spell(src, &doc, &mut rng, &mut feats, true);
+        let mut mode = match rng.below(4) {
+            0 => Mode::Slice,
+            1 => Mode::Reader(Sched::All),
+            _ => Mode::Reader(Sched::Fixed(*rng.pick(&[3usize, 7, 4096]))),
+        };
+        let kind = match rng.below(5) {
+            0 if bytes.len() > 2 => {
+                let at = 1 + rng.below(bytes.len() - 1);
+                bytes.truncate(at);
+                "cut_short"
+            }
+            1 if !bytes.is_empty() => {
+                let at = rng.below(bytes.len() + 1);
+                bytes.insert(at, *rng.pick(&[b'}', b']', b'"', 0xff, 0xc1, b'=', b':']));
+                "stray_byte"
+            }
+            2 => {
+                mode = Mode::Reader(Sched::FaultAt(*rng.pick(&[3usize, 64, 4096]), rng.below(bytes.len() + 1)));
+                "failing_reader"
+            }
+            _ => "intact",
+        };
+        let from = if rng.chance(1, 3) && detected_as(&bytes) == Some(src) { None } else { Some(src) };
+        kinds.push(kind);
+        calls.push(Call { input: bytes, from, mode });
+    }
+    let alone: Vec<_> = calls.iter().map(|c| run_mode(&c.input, &c.mode, c.from, to)).collect();
+    acc.evals += 1;
+    acc.count("shared_translator_batches_with_failing_calls");
+    let n_fail = alone.iter().filter(|o| !o.verdict.is_ok()).count();
+    if n_fail > 0 && alone.last().map(|o| o.verdict.is_ok()).unwrap_or(false) {
+        acc.count("successful_calls_after_failed_calls");
+    }
+    let (verdicts, wlog) = run_history(&calls, to, crate::mon::MonWriter::new(), false);
+    if verdicts.len() != calls.len() {
+        acc.violation(Violation { sig: "shared translator: panic".into(), case: json!({"part": "shared_translator_with_failures", "seed": seed, "index": i}), observed: verdicts.last().map(|v| v.show()).unwrap_or_default(), expected: "no panic".into() });
+        return;
+    }
+    let case = || json!({"part": "shared_translator_with_failures", "seed": seed, "index": i, "to": to.name(), "calls": calls.iter().zip(&kinds).map(|(c, k)| json!({"kind": k, "from": fmts::from_name(c.from), "mode": c.mode.describe(), "input_hex": hex(&c.input), "input_preview": preview(&c.input, 120)})).collect::<Vec<_>>()});
+    let mut off = 0;
+    for (j, o) in alone.iter().enumerate() {
+        if verdicts[j].class() != o.verdict.class() {
+            acc.violation(Violation { sig: format!("shared translator ->{}: after earlier calls (some failed) a call ends differently than on a fresh translator", to.name()), case: case(), observed: format!("call {j} of {n} ({}): {} on the shared translator, {} alone", kinds[j], verdicts[j].show(), o.verdict.show()), expected: "the same verdict as on a fresh translator".into() });
+            return;
+        }
+        let got = wlog.bytes.get(off..(off + o.out.len()).min(wlog.bytes.len())).unwrap_or(&[]);
+        if got != &o.out[..] {
+            acc.violation(Violation { sig: format!("shared translator ->{}: after earlier calls (some failed) a call writes other bytes than on a fresh translator", to.name()), case: case(), observed: format!("call {j} of {n} ({}): [{}] on the shared translator, [{}] alone", kinds[j], preview(got, 160), preview(&o.out, 160)), expected: "the same bytes as on a fresh translator".into() });
+            return;
+        }
+        off += o.out.len();
+    }
+    if off != wlog.bytes.len() {
+        acc.violation(Violation { sig: format!("shared translator ->{}: extra output", to.name()), case: case(), observed: format!("{} bytes beyond what the {n} calls write alone: [{}]", wlog.bytes.len() - off, preview(&wlog.bytes[off..], 120)), expected: "nothing else".into() });
+    }
+}
+
 fn detected_as(input: &[u8]) -> Option<Fmt> {
     xt::verif::detect_slice(input).ok().flatten().map(Fmt::from_xt)
 }
@@ -359,6 +441,7 @@ pub fn run(ctx: &Ctx) -> i32 {
         }
         if !heavy {
             shared_translator_batch(seed, i, &base, acc);
+            shared_translator_with_failures(seed, i, acc);
         }
         // non-finite floats for the formats that have them
         if i % 4 == 0 {
@@ -380,7 +463,7 @@ pub fn run(ctx: &Ctx) -> i32 {
         }
     });
     let rule = format!(
-        "{} generated documents of the common model (scalar pools aimed at type look-alike strings, YAML indicators, control/BOM/non-character/astral code points, integer boundaries of every width, 17-digit and special floats; depth up to 64; wide collections at MessagePack header thresholds; every 150th document a 'heavy' one: 4 095..70 000 entries, or tens of KiB of multi-byte text) x 16 (source,target) pairs (TOML pairs on the TOML-representable restriction) x 3 spellings (1 conventional, 2 hostile; every third document's last YAML spelling re-encoded as UTF-16/32 with a byte order mark) x [slice, 1 scheduled reader] x [explicit, detected when the detect hook names the source format]; plus one batch per document of 2-3 documents in different source formats through ONE translator (detection where possible), each output document compared with its translation alone; oracle = independent reader of the target; distinct non-trivial = distinct documents containing >= 1 hostile-class scalar or depth >= 3",
+        "{} generated documents of the common model (scalar pools aimed at type look-alike strings, YAML indicators, control/BOM/non-character/astral code points, integer boundaries of every width, 17-digit and special floats; depth up to 64; wide collections at MessagePack header thresholds; every 150th document a 'heavy' one: 4 095..70 000 entries, or tens of KiB of multi-byte text) x 16 (source,target) pairs (TOML pairs on the TOML-representable restriction) x 3 spellings (1 conventional, 2 hostile; every third document's last YAML spelling re-encoded as UTF-16/32 with a byte order mark) x [slice, 1 scheduled reader] x [explicit, detected when the detect hook names the source format]; plus one batch per document of 2-3 documents in different source formats through ONE translator (detection where possible), each output document compared with its translation alone, and one batch of 3-5 calls on ONE translator in which some calls fail (input cut short, a stray byte, a reader that starts failing): every call must end, and write, exactly as on a fresh translator; oracle = independent reader of the target; distinct non-trivial = distinct documents containing >= 1 hostile-class scalar or depth >= 3",
         n
     );
     ev::finish(
@@ -395,7 +478,7 @@ pub fn run(ctx: &Ctx) -> i32 {
             extra: serde_json::Map::new(),
             exhaustive: false,
             min_distinct: 200,
-            must_reach: vec![("heavy_documents".into(), 10), ("detected_runs".into(), 100), ("class_lookalike_strings".into(), 50), ("class_float_values".into(), 50), ("shared_translator_batches".into(), 1000), ("yaml_spelled_in_utf16_or_utf32".into(), 500), ("interrupted_reader_ok".into(), 500), ("yaml_spelled_in_utf16_or_utf32_without_bom".into(), 100), ("shared_translator_batches_with_two_detections".into(), 100)],
+            must_reach: vec![("heavy_documents".into(), 10), ("detected_runs".into(), 100), ("class_lookalike_strings".into(), 50), ("class_float_values".into(), 50), ("successful_calls_after_failed_calls".into(), 1000), ("shared_translator_batches".into(), 1000), ("yaml_spelled_in_utf16_or_utf32".into(), 500), ("interrupted_reader_ok".into(), 500), ("yaml_spelled_in_utf16_or_utf32_without_bom".into(), 100), ("shared_translator_batches_with_two_detections".into(), 100)],
         },
         acc,
     )
@@ -403,6 +486,18 @@ pub fn run(ctx: &Ctx) -> i32 {
 
 pub fn replay(v: &Value) -> i32 {
     let c = &v["case"];
+    if c["part"].as_str() == Some("shared_translator_with_failures") {
+        let (Some(seed), Some(i)) = (c["seed"].as_u64(), c["index"].as_u64()) else { return 2 };
+        let mut acc = Acc::default();
+        shared_translator_with_failures(seed, i as usize, &mut acc);
+        return if acc.vio_count > 0 {
+            println!("VIOLATION property=C01 replay=<this file> (reproduced): {}", acc.violations[0].observed);
+            1
+        } else {
+            println!("not reproduced");
+            0
+        };
+    }
     if c["part"].as_str() == Some("shared_translator") {
         let (Some(seed), Some(i)) = (c["seed"].as_u64(), c["index"].as_u64()) else { return 2 };
         let mut rng = Rng::derive(seed, 0xc01, i);
